@@ -81,6 +81,7 @@ def run_history(args):
                 odesc = desc.clone(); otarget = "oracle-node"; odesc.targets[otarget] = [node]
             bad, pr = bh.check_outputs(sb, desc, roots)
             res["files_checked"] += len(pr.files)
+            res["archives_checked"] = res.get("archives_checked", 0) + len(pr.archives)
             if pr.fails:
                 res["viol"].append(("C08", "build reported success although a command it needs cannot succeed (%s)" % list(pr.fails.values())[0].split()[0], wit(pr.fails)))
                 break
